@@ -22,6 +22,16 @@ Theorem C12_order_irrelevant f c pi1 pi2 :
 Proof. intros H. exact (repaired_order_irrelevant f c pi1 pi2 (wf_loop_spec f c pi1 H)). Qed.
 Print Assumptions C12_order_irrelevant.
 
+
+(* 1b. the same at module level: the back-reference set of a bundle holds PortRefs (instance, port) of SEVERAL instances;
+       each step rewrites the dict of its own instance.  For every two enumerations of the set the whole module state
+       (every instance's ordered dict) is the same.  mwf: distinct instance names, every PortRef names an instance of
+       the module, and wf_loop per instance for its ports. *)
+Theorem C12_order_irrelevant_module f m pi1 pi2 :
+  mwf f m pi1 = true -> Permutation pi1 pi2 -> mrun step_repaired f pi1 m = mrun step_repaired f pi2 m.
+Proof. intros H. exact (mrepaired_order_irrelevant f m pi1 pi2 (mwf_spec f m pi1 H)). Qed.
+Print Assumptions C12_order_irrelevant_module.
+
 (* 2. ... and it is the specified one: the connections as written, each bundle-valued connection replaced where it
       stands by its flattened connections (Spec/C12Repro.v: flatten_in_place) *)
 Theorem C12_order_is_written_order f c pi :
@@ -57,6 +67,14 @@ Theorem C12_partition_invariant f c pi1 pi2 :
   end.
 Proof. intros H. exact (pinned_partition f c pi1 pi2 (wf_loop_spec f c pi1 H)). Qed.
 Print Assumptions C12_partition_invariant.
+
+
+(* 4b. ... hence the same port -> connection map *)
+Theorem C12_partition_same_map f c pi1 pi2 r1 r2 :
+  wf_loop f c pi1 = true -> Permutation pi1 pi2 ->
+  run_pinned f pi1 c = Ok r1 -> run_pinned f pi2 c = Ok r2 -> forall k, lookup k r1 = lookup k r2.
+Proof. intros H. exact (pinned_same_map f c pi1 pi2 r1 r2 (wf_loop_spec f c pi1 H)). Qed.
+Print Assumptions C12_partition_same_map.
 
 (* 5. update_ref_deps (Instance.replace on every connected port): assignment to present keys never moves a key, so the
       order of the dict is untouched whatever the enumeration *)
@@ -131,4 +149,15 @@ Example C12_ex_reproducible :
   reproducible [Obs "aa" "bb" "cc" "!RuntimeError"; Obs "aa" "bb" "cc" "!RuntimeError"] = true /\
   reproducible [Obs "aa" "bb" "cc" "dd"; Obs "aa" "bb" "cc" "dd"; Obs "ab" "bb" "cc" "dd"] = false /\
   reproducible [Obs "aa" "bb" "cc" "dd"; Obs "aa" "bb" "cc" "!RuntimeError"] = false.
+Proof. vm_compute. repeat split. Qed.
+
+(* module level: one bundle feeding two ports of i0 and two ports of i1; two interleavings *)
+Example C12_ex_module :
+  let m := [("i0", [("q", "s"); ("a", "bb"); ("b", "bb")]); ("i1", [("b", "bb"); ("q", "s"); ("a", "bb")])] in
+  mwf (fun _ => w_f) m [("i0", "a"); ("i1", "a"); ("i0", "b"); ("i1", "b")] = true /\
+  mrun step_repaired (fun _ => w_f) [("i0", "a"); ("i1", "a"); ("i0", "b"); ("i1", "b")] m =
+  mrun step_repaired (fun _ => w_f) [("i1", "b"); ("i0", "b"); ("i0", "a"); ("i1", "a")] m /\
+  match mrun step_repaired (fun _ => w_f) [("i1", "b"); ("i0", "b"); ("i0", "a"); ("i1", "a")] m with
+  | Ok [(_, c0); (_, c1)] => Corr_eq (keys c0) ["q"; "a_x"; "a_y"; "b_x"; "b_y"] && Corr_eq (keys c1) ["b_x"; "b_y"; "q"; "a_x"; "a_y"]
+  | _ => false end = true.
 Proof. vm_compute. repeat split. Qed.
